@@ -238,8 +238,16 @@ impl anstyle_parse::Perform for WinconCapture {
                         }
                     },
                     (State::Underline, 0) => {
-                        style =
-                            style.effects(style.get_effects().remove(anstyle::Effects::UNDERLINE));
+                        // `4:0` is "no underline", whatever the underline style was
+                        style = style.effects(
+                            style.get_effects().remove(
+                                anstyle::Effects::UNDERLINE
+                                    | anstyle::Effects::DOUBLE_UNDERLINE
+                                    | anstyle::Effects::CURLY_UNDERLINE
+                                    | anstyle::Effects::DOTTED_UNDERLINE
+                                    | anstyle::Effects::DASHED_UNDERLINE,
+                            ),
+                        );
                     }
                     (State::Underline, 1) => {
                         // underline already set
